@@ -165,7 +165,7 @@ def run_property(prop, tier, seed, only=None):
     crashed = []
     results = []
     if cs:
-        with mp.Pool(min(16, len(cs))) as pool:
+        with mp.Pool(min(16, len(cs)), maxtasksperchild=1) as pool:      # a fresh worker per contract: z3 state (hence timing) independent of scheduling
             results = pool.map(job, [(c.id, tier, seed) for c in cs], chunksize=1)
     obligations = []
     functions, trusted, assumptions = set(), set(), set()
